@@ -319,14 +319,9 @@ func (c *CoAComponent) handleCoARequest(req *coaRequest) {
 		return
 	}
 
-	if provider.cfg.CoAReplayWindow > 0 {
-		if ts := getEventTimestamp(req.packet); ts > 0 {
-			age := time.Now().Unix() - int64(ts)
-			if age > provider.cfg.CoAReplayWindow || age < -provider.cfg.CoAReplayWindow {
-				c.stats.IncrInvalidAuth(req.client.key)
-				return
-			}
-		}
+	if !withinReplayWindow(req.packet, provider.cfg.CoAReplayWindow) {
+		c.stats.IncrInvalidAuth(req.client.key)
+		return
 	}
 
 	target, errCause := resolveCoATarget(req.packet)
@@ -386,6 +381,13 @@ func (c *CoAComponent) handleDisconnectRequest(req *coaRequest) {
 	if hasNonIdentificationAttrs(req.packet) {
 		c.stats.IncrDisconnectNAK(req.client.key)
 		c.sendResponse(req.src, req.client.secret, req.packet, codeDisconnectNAK, errorCauseInvalidRequest, req.raw)
+		return
+	}
+
+	// The Event-Timestamp replay window (RFC 5176 section 3.4) protects
+	// Disconnect-Request exactly as it protects CoA-Request.
+	if !withinReplayWindow(req.packet, provider.cfg.CoAReplayWindow) {
+		c.stats.IncrInvalidAuth(req.client.key)
 		return
 	}
 
@@ -556,6 +558,21 @@ func hasServiceType(packet *radius.Packet, value uint32) bool {
 		}
 	}
 	return false
+}
+
+// withinReplayWindow reports whether the request's Event-Timestamp, when
+// present, lies within window seconds of the local clock. A window <= 0
+// disables the check.
+func withinReplayWindow(packet *radius.Packet, window int64) bool {
+	if window <= 0 {
+		return true
+	}
+	ts := getEventTimestamp(packet)
+	if ts == 0 {
+		return true
+	}
+	age := time.Now().Unix() - int64(ts)
+	return age <= window && age >= -window
 }
 
 func getEventTimestamp(packet *radius.Packet) uint32 {
